@@ -12,7 +12,7 @@ RULE = (
     "space, ASCII and typographic operators, separators, brackets, both quotes, # $ ! : .); (ii) Hypothesis strings "
     "up to length 60 over that alphabet plus one-character mutations of real formulas; (iii) every formula text the "
     "reader emits for every formula cell of the supported fixtures (and for references rendered over generated header "
-    "labels); (iv) thorough: coverage-guided atheris campaign. Oracle: only TokenizerError may escape; on success the "
+    "labels and table names). Oracle: only TokenizerError may escape; on success the "
     "token values concatenate to the input and no quoted span (doubled-quote rule) straddles two tokens; reader output "
     "must tokenize. Non-trivial: contains a quote, bracket or two-character operator; distinct by string."
 )
